@@ -299,7 +299,15 @@ def rule_replay(R):
     _r(R)
 
 
+def rule_store(R):
+    """writes resume from the recorded offset only if the offset that is recorded is the accepted count: the setters
+    forward (written, len) by position and the step hands them over in that order (shared with C13)"""
+    from .c13 import rule_store as _r
+    _r(R)
+
+
 def run(R):
+    R.rule("store", rule_store)
     R.rule("replay", rule_replay)
     R.rule("interleave", rule_interleave)
     R.rule("read", rule_read)
